@@ -15,13 +15,14 @@ from __future__ import annotations
 
 import itertools
 from fractions import Fraction
+import copy as _copy
 from typing import Any, Callable, Dict, List, Optional, Sequence, Tuple
 
 import torch
 import torch.nn.functional as F
 import z3
 
-from .scalar import Ctx, SBool, SInt, SReal, _q, _sreal, ctx
+from .scalar import Ctx, SBool, SInt, SReal, _q, _sreal, ctx, snap_exponent
 
 
 class HarnessError(Exception):
@@ -244,6 +245,7 @@ class Node:
 class Mode:
     grad = True
     active = 0
+    events: List[str] = []  # structural observations of a run (e.g. a low-precision scalar tensor multiplying a higher-precision tensor)
 
 
 class no_grad:
@@ -321,6 +323,12 @@ class STensor:
         return self.shape.numel()
 
     nelement = numel
+
+    def nelement(self) -> Any:
+        return self.numel()
+
+    def ndimension(self) -> int:
+        return self.dim()
 
     def is_floating_point(self) -> bool:
         return self.meta.is_floating_point()
@@ -608,8 +616,7 @@ ALIASES = {"multiply": "mul", "divide": "true_divide", "div": "true_divide", "su
            "__truediv__": "true_divide", "__rtruediv__": "rtrue_divide", "__rsub__": "rsub",
            "clip": "clamp", "scaled_dot_product_attention": "sdpa", "__matmul__": "matmul"}
 
-ELEMENTWISE_UNARY = {"gelu", "silu", "sigmoid", "tanh", "relu", "exp", "log", "erf", "abs", "sqrt", "rsqrt",
-                     "reciprocal", "square", "sin", "cos", "softplus", "elu", "leaky_relu", "hardtanh"}
+ELEMENTWISE_UNARY = {"gelu", "silu", "sigmoid", "tanh", "relu", "exp", "log", "erf", "abs", "sin", "cos", "softplus", "elu", "leaky_relu", "hardtanh"}
 
 
 def dispatch(name: str, func: Any, args: Tuple[Any, ...], kwargs: Dict[str, Any]) -> Any:
@@ -620,8 +627,18 @@ def dispatch(name: str, func: Any, args: Tuple[Any, ...], kwargs: Dict[str, Any]
     if h is None:
         if name in ELEMENTWISE_UNARY:
             return _h_unary(name, func, args, kwargs)
+        if name in _METHOD_FORMS and args and isinstance(args[0], STensor):
+            # function spelling of something STensor answers itself: torch.numel(t), torch.is_floating_point(t), ...
+            return getattr(args[0], name)(*args[1:], **kwargs)
         return _h_generic(name, func, args, kwargs)
     return h(name, func, args, kwargs)
+
+
+_METHOD_FORMS = {"numel", "nelement", "dim", "ndimension", "size", "is_floating_point"}
+# non-tensor answers that depend on the dtype/rank only (never on a dimension size or on data): torch's answer on the meta tensor is exact
+_METADATA_ONLY = {"is_complex", "is_signed", "is_contiguous", "element_size", "is_inference", "is_conj", "is_neg",
+                  "is_sparse", "is_quantized", "is_meta", "is_cuda", "is_cpu", "get_device", "result_type", "can_cast", "promote_types",
+                  "is_leaf", "is_pinned", "is_shared", "is_coalesced", "is_distributed", "is_nested", "is_mkldnn"}
 
 
 def _h_generic(name: str, func: Any, args: Tuple[Any, ...], kw: Dict[str, Any]) -> Any:
@@ -634,6 +651,8 @@ def _h_generic(name: str, func: Any, args: Tuple[Any, ...], kw: Dict[str, Any]) 
     except Exception as e:
         raise HarnessError(f"engine S has no stub for torch op '{name}' and meta execution failed: {e}")
     if not isinstance(meta, torch.Tensor):
+        if name in _METADATA_ONLY and isinstance(meta, (bool, int, torch.dtype, type(None))):
+            return meta
         raise HarnessError(f"engine S has no stub for torch op '{name}' (non-tensor result)")
     ts = [a for a in args if isinstance(a, STensor)]
     dims: List[Any] = list(meta.shape)
@@ -667,6 +686,13 @@ def _h_mul(name: str, func: Any, args: Tuple[Any, ...], kw: Dict[str, Any]) -> A
     a, b = _binary_operands(args)
     meta = _run_meta(torch.mul, (a, b), {})
     sa, sb = _scalar_of(a), _scalar_of(b)
+    for t, k in ((a, b), (b, a)):
+        if (isinstance(t, STensor) and isinstance(k, STensor) and k.const is not None and t.const is None and t.meta.is_floating_point()
+                and not isinstance(k.meta, OffPathMeta) and not isinstance(t.meta, OffPathMeta)
+                and (not k.meta.is_floating_point() or torch.finfo(k.dtype).eps > torch.finfo(t.dtype).eps)):
+            # the factor was stored in a tensor that cannot hold it to the precision of what it multiplies (an integer or a
+            # lower-precision float dtype): in real arithmetic the product is exact, on the machine it is not
+            Mode.events.append(f"a {k.dtype} scalar tensor multiplies a {t.dtype} tensor")
     if isinstance(a, STensor) and sb is not None and not (a.const is not None and isinstance(b, STensor) and b.const is None):
         return _scaled(a, sb, meta)
     if isinstance(b, STensor) and sa is not None:
@@ -678,11 +704,11 @@ def _h_mul(name: str, func: Any, args: Tuple[Any, ...], kw: Dict[str, Any]) -> A
     if ta is not None and tb is not None:  # bilinear: pull coefficients out
         ua = STensor(LC(((ONE, ta[1]),)), a.shape, a.meta, node=None)
         ub = STensor(LC(((ONE, tb[1]),)), b.shape, b.meta, node=None)
-        core = Term("mul", (ua.lc, ub.lc))
+        core = _mul_term(ua.lc, ub.lc)
         coef = z3.simplify(ta[0] * tb[0])
-        out_lc = LC(((coef, core),))
+        out_lc = lc_scale(core, coef)
     else:
-        out_lc = LC(((ONE, Term("mul", (a.lc, b.lc))),))
+        out_lc = _mul_term(a.lc, b.lc)
     node = None
     if Mode.grad and (a.requires_grad or b.requires_grad):
         def vjp(g: LC, _a: STensor = a, _b: STensor = b) -> List[Optional[LC]]:
@@ -692,6 +718,16 @@ def _h_mul(name: str, func: Any, args: Tuple[Any, ...], kw: Dict[str, Any]) -> A
 
         node = Node([a, b], vjp, "mul")
     return STensor(out_lc, shape, meta, node=node)
+
+
+def _mul_term(u: LC, v: LC) -> LC:
+    """elementwise product of two operands in normal form: commutative (operands ordered by key); u*u is pow(u, 2)"""
+    ku, kv = _key(u), _key(v)
+    if ku == kv:
+        return _pow_lc(u, Fraction(2))
+    if repr(ku) > repr(kv):
+        u, v = v, u
+    return LC(((ONE, Term("mul", (u, v))),))
 
 
 def _mul_lc(g: LC, other: LC, target: STensor) -> LC:
@@ -715,26 +751,12 @@ def _h_div(name: str, func: Any, args: Tuple[Any, ...], kw: Dict[str, Any]) -> A
     if isinstance(a, STensor) and sb is not None:
         return _scaled(a, sb, meta, inverse=True)
     if isinstance(a, STensor) and isinstance(b, STensor):
-        shape = broadcast_shapes(a.shape, b.shape)
-        ta, tb = _single(a.lc), _single(b.lc)
-        if ta is not None and tb is not None:
-            coef = z3.simplify(ta[0] / tb[0])
-            ua, ub = LC(((ONE, ta[1]),)), LC(((ONE, tb[1]),))
-        else:
-            coef, ua, ub = ONE, a.lc, b.lc
-        term = Term("div", (ua, ub))
-        node = None
-        if Mode.grad and (a.requires_grad or b.requires_grad):
-            def vjp(g: LC, _a: STensor = a, _b: STensor = b, _ua: LC = ua, _ub: LC = ub, _coef: Any = coef) -> List[Optional[LC]]:
-                ga = LC(tuple((z3.simplify(c * _coef), Term("vjp[div,0]", (_ua, _ub, LC(((ONE, G),))))) for c, G in g)) if _a.requires_grad else None
-                gb = LC(tuple((z3.simplify(c * _coef), Term("vjp[div,1]", (_ua, _ub, LC(((ONE, G),))))) for c, G in g)) if _b.requires_grad else None
-                return [ga, gb]
-
-            node = Node([a, b], vjp, "div")
-        return STensor(LC(((coef, term),)), shape, meta, node=node)
+        # a / b  ==  a * b**-1  (one canonical spelling for x / rms, x * rms.reciprocal(), x * rsqrt(ms), ...)
+        r = _pow_tensor(b, Fraction(-1), _run_meta(torch.reciprocal, (b,), {}) if b.meta.is_floating_point() else meta)
+        return _h_mul("mul", torch.mul, (a, r), {})
     sa = _scalar_of(a)
     if sa is not None and isinstance(b, STensor):  # scalar / tensor
-        r = opaque("reciprocal", [b], {}, b.shape, meta)
+        r = _pow_tensor(b, Fraction(-1), meta)
         return _scaled(r, sa, meta)
     raise HarnessError("div operands")
 
@@ -942,10 +964,87 @@ def _h_to(name: str, func: Any, args: Tuple[Any, ...], kw: Dict[str, Any]) -> An
     return STensor(x.lc, x.shape, meta, node=node, const=x.const)
 
 
+def _concrete_exponent(p: Any) -> Optional[Fraction]:
+    if isinstance(p, bool):
+        return None
+    if isinstance(p, STensor):
+        p = p.const
+    if isinstance(p, torch.Tensor) and p.dim() == 0:
+        p = p.item()
+    if isinstance(p, SInt):
+        p = p.concrete()
+    if isinstance(p, SReal):
+        p = p.const
+    if isinstance(p, (int, float, Fraction)):
+        try:
+            return snap_exponent(p)
+        except NotImplementedError:
+            return None
+    return None
+
+
+def _pow_lc(u: LC, q: Fraction) -> LC:
+    """canonical term for u ** q (u an operand in normal form, q a concrete rational)"""
+    if q == 1:
+        return u
+    return LC(((ONE, Term("pow", (u, q))),))
+
+
+def _pow_tensor(x: STensor, q: Fraction, meta: Any) -> STensor:
+    """x ** q in canonical form: every spelling of a power (pow, square, sqrt, rsqrt, reciprocal, 1/x, nested powers where
+    (x**a)**b = x**(a*b) holds over the reals) becomes the one term pow(u, q); d/dx = q * g * x**(q-1)."""
+    if x.const is not None:
+        from .scalar import sym_pow
+        return STensor.scalar(sym_pow(x.const, q), meta.dtype if not isinstance(meta, OffPathMeta) else x.dtype)
+    u, coef, qq = x.lc, ONE, q
+    t = _single(u)
+    if t is not None:
+        c0, term = t
+        c_is_one = z3.is_true(z3.simplify(c0 == 1))
+        if not c_is_one and q.denominator == 1 and q != 0:
+            # (c*v)**n = c**n * v**n for an integer n (c != 0 is a definedness obligation when n < 0)
+            if q < 0 and not z3.is_true(z3.simplify(c0 != 0)):
+                ctx().oblige(f"definedness: tensor divisor coefficient {z3.simplify(c0)} != 0", c0 != 0, kind="definedness")
+            cn = z3.Product([c0] * int(abs(q))) if abs(q) > 1 else c0
+            coef = z3.simplify(cn if q > 0 else 1 / cn)
+            u, c_is_one = LC(((ONE, term),)), True
+        if c_is_one and term.op == "pow":
+            inner, a = term.args
+            if isinstance(a, Fraction) and (a.denominator % 2 == 0 or (a.denominator == 1 and q.denominator == 1)):
+                u, qq = inner, a * q
+    out_lc = lc_scale(_pow_lc(u, qq), coef) if not z3.is_true(z3.simplify(coef == 1)) else _pow_lc(u, qq)
+    node = None
+    if Mode.grad and x.requires_grad and x.meta.is_floating_point():
+        def vjp(g: LC, _x: STensor = x, _q: Fraction = q) -> List[Optional[LC]]:
+            if _q == 1:
+                return [g]
+            # g * q * x**(q-1), in canonical form as well
+            with no_grad():
+                d = _pow_tensor(STensor(_x.lc, _x.shape, _x.meta), _q - 1, _x.meta)
+            return [lc_scale(_mul_lc(g, d.lc, _x), _qz(_q))]
+
+        node = Node([x], vjp, "pow")
+    return STensor(out_lc, x.shape, meta, node=node)
+
+
+def _qz(q: Fraction) -> Any:
+    return z3.Q(q.numerator, q.denominator)
+
+
+_POWER_SPELLINGS = {"square": Fraction(2), "sqrt": Fraction(1, 2), "rsqrt": Fraction(-1, 2), "reciprocal": Fraction(-1)}
+
+
 def _h_pow(name: str, func: Any, args: Tuple[Any, ...], kw: Dict[str, Any]) -> Any:
-    x, p = args[0], args[1]
+    if name in _POWER_SPELLINGS:
+        x, p = args[0], _POWER_SPELLINGS[name]
+        meta = _run_meta(getattr(torch, name), (x,), {})
+        return _pow_tensor(x, p, meta)
+    x, p = args[0], args[1] if len(args) > 1 else kw.get("exponent")
     meta = _run_meta(torch.pow, (x, p), {})
-    return opaque("pow", [x, p], {}, x.shape, meta)
+    q = _concrete_exponent(p)
+    if isinstance(x, STensor) and q is not None:
+        return _pow_tensor(x, q, meta)
+    return opaque("pow", [x, p], {}, x.shape if isinstance(x, STensor) else p.shape, meta)
 
 
 def _h_reduce(name: str, func: Any, args: Tuple[Any, ...], kw: Dict[str, Any]) -> Any:
@@ -966,6 +1065,14 @@ def _h_reduce(name: str, func: Any, args: Tuple[Any, ...], kw: Dict[str, Any]) -
         dl = [dims] if isinstance(dims, int) else list(dims)
         dn = tuple(sorted(d % nd for d in dl))
         shape = tuple((1 if i in dn else s) for i, s in enumerate(x.shape) if keepdim or i not in dn)
+    if name == "mean" and x.meta.is_floating_point():
+        # mean = sum / count: one canonical spelling for x.mean(d), x.sum(d) / n, ...
+        count: Any = 1
+        for i, sz in enumerate(x.shape):
+            if dn is None or i in dn:
+                count = count * sz
+        total = opaque("sum", [x], {"dim": dn, "keepdim": bool(keepdim)}, shape, meta)
+        return _scaled(total, _sreal(count), meta, inverse=True)
     return opaque(name, [x], {"dim": dn, "keepdim": bool(keepdim)}, shape, meta)
 
 
@@ -1101,10 +1208,29 @@ def _h_item(name: str, func: Any, args: Tuple[Any, ...], kw: Dict[str, Any]) -> 
     x = args[0]
     if x.const is not None:
         return x.const
+    return _item_of(x.lc, len(x.shape) == 0 or all(isinstance(d, int) and d == 1 for d in x.shape))
+
+
+def _item_of(lc: LC, scalar_shape: bool) -> SReal:
+    """The number read out of a one-element tensor: linear in the terms, |.| commutes with the read-out, and the same term
+    always reads the same (one data symbol per term, hash-consed per context)."""
     c = ctx()
-    v = c.fresh("data")
-    c.data_vars.append((v, x.lc))
-    return SReal(v)
+    cache = c.__dict__.setdefault("_item_cache", {})
+    total: Any = None
+    for coef, term in lc:
+        if term.op == "abs" and scalar_shape and len(term.args) >= 1 and isinstance(term.args[0], LC):
+            inner = _item_of(term.args[0], scalar_shape)
+            val = z3.If(inner.z >= 0, inner.z, -inner.z)
+        else:
+            k = term.key
+            if k not in cache:
+                v = c.fresh("data")
+                c.data_vars.append((v, LC(((ONE, term),))))
+                cache[k] = v
+            val = cache[k]
+        part = val if z3.is_true(z3.simplify(coef == 1)) else coef * val
+        total = part if total is None else total + part
+    return SReal(total if total is not None else z3.RealVal(0))
 
 
 def _h_silu(name: str, func: Any, args: Tuple[Any, ...], kw: Dict[str, Any]) -> Any:
@@ -1121,7 +1247,7 @@ HANDLERS: Dict[str, Callable[..., Any]] = {
     "neg": _h_neg, "linear": _h_linear, "matmul": _h_matmul, "conv1d": _h_conv1d, "softmax": _h_softmax,
     "dropout": _h_dropout, "layer_norm": _h_layer_norm, "embedding": _h_embedding, "sdpa": _h_sdpa,
     "cross_entropy": _h_cross_entropy, "mse_loss": _h_mse_loss, "to": _h_to, "float": _h_to, "double": _h_to,
-    "half": _h_to, "bfloat16": _h_to, "type": _h_to, "pow": _h_pow, "mean": _h_reduce, "sum": _h_reduce,
+    "half": _h_to, "bfloat16": _h_to, "type": _h_to, "pow": _h_pow, "square": _h_pow, "sqrt": _h_pow, "rsqrt": _h_pow, "reciprocal": _h_pow, "mean": _h_reduce, "sum": _h_reduce,
     "clone": _h_clone, "detach": _h_clone, "flatten": _h_shape_op, "transpose": _h_shape_op, "t": _h_shape_op,
     "permute": _h_shape_op, "unsqueeze": _h_shape_op, "squeeze": _h_shape_op, "reshape": _h_shape_op, "view": _h_shape_op,
     "contiguous": _h_shape_op, "getitem": _h_getitem, "pad": _h_pad, "std": _h_stat, "var": _h_stat,
@@ -1236,6 +1362,7 @@ class FakeCtx:
     def __init__(self) -> None:
         self.saved_tensors: Tuple[Any, ...] = ()
         self.needs_input_grad: Tuple[bool, ...] = ()
+        self.materialize_grads = True
 
     def save_for_backward(self, *ts: Any) -> None:
         self.saved_tensors = tuple(ts)
@@ -1244,7 +1371,7 @@ class FakeCtx:
         pass
 
     def set_materialize_grads(self, v: bool) -> None:
-        pass
+        self.materialize_grads = bool(v)
 
 
 def _contains_st(x: Any) -> bool:
@@ -1253,6 +1380,22 @@ def _contains_st(x: Any) -> bool:
     if isinstance(x, (tuple, list)):
         return any(_contains_st(v) for v in x)
     return False
+
+
+ENGINE_S_STUBS = [
+    "__torch_function__ on STensor and on symbolic scalars (SInt/SReal): every torch call with a symbolic operand is routed to vf/sym/tensor.py",
+    "canonical forms: pow/square/sqrt/rsqrt/reciprocal/1/x -> pow(u, q); a / b -> a * b**-1; commutative products, u*u -> u**2; mean -> sum / count; "
+    "F.silu(z) -> z*sigmoid(z); read-outs (.item(), float(t), int(t)) -> one data symbol per term, linear, |.| commutes",
+    "torch.autograd.Function.apply -> the class's own forward/backward on symbolic tensors (mini-autograd tape)",
+    "torch.tensor / torch.broadcast_shapes / torch.is_tensor wrappers",
+    "module globals of unit_scaling.* during a session: F -> call-routing shim (functional, _modules), einops -> shape-rule shim (_modules), `math` and names "
+    "imported from it -> symbolic stand-ins (any module), int / float -> callable type shims (functional, core.functional, _modules, optim, scale, utils), "
+    "pow / prod (constraints), Tensor -> isinstance-compatible TensorLike (optim, utils, _track_scales), isclose (_track_scales)",
+]
+ENGINE_S_ASSUMPTIONS = [
+    "python floats are reals; a source constant within 2 ulp of the square root of a rational with denominator <= 4096 (2**0.5, 8**-0.5, ...) is read as that "
+    "root; other constants are the exact rational value of the double and equalities may be discharged to 1e-9 relative",
+]
 
 
 class Session:
@@ -1285,10 +1428,53 @@ class Session:
             fctx.needs_input_grad = tuple(isinstance(a, STensor) and a.requires_grad for a in args)
             with no_grad():
                 out = cls.forward(fctx, *args, **kwargs)
-            if not isinstance(out, STensor):
-                return out
             parents = [a for a in args if isinstance(a, STensor)]
             pidx = [i for i, a in enumerate(args) if isinstance(a, STensor)]
+            if isinstance(out, (tuple, list)) and any(isinstance(o, STensor) for o in out):
+                # several outputs, one backward: the gradients of the outputs travel to a hub tensor tagged by output index
+                # (injection terms), the hub's vjp separates them again and calls the class's own backward once
+                outs_t = list(out)
+                if not (Mode.grad and any(p.requires_grad for p in parents)):
+                    return type(out)(outs_t)
+
+                def hub_vjp(g: LC, _cls: Any = cls, _fctx: FakeCtx = fctx, _outs: List[Any] = outs_t) -> List[Optional[LC]]:
+                    per: List[Optional[LC]] = [None] * len(_outs)
+                    for c, t in g:
+                        k = int(t.op[4:-1])
+                        inner = lc_scale(t.args[0], c)
+                        per[k] = inner if per[k] is None else lc_add(per[k], inner)
+                    gts: List[Any] = []
+                    for k, o in enumerate(_outs):
+                        if not isinstance(o, STensor):
+                            gts.append(None)
+                        elif per[k] is None:
+                            gts.append(STensor(LC(()), o.shape, o.meta) if _fctx.materialize_grads else None)
+                        else:
+                            gts.append(STensor(per[k], o.shape, o.meta))
+                    res = _cls.backward(_fctx, *gts)
+                    if not isinstance(res, tuple):
+                        res = (res,)
+                    back: List[Optional[LC]] = []
+                    for i in pidx:
+                        r = res[i] if i < len(res) else None
+                        back.append(r.lc if isinstance(r, STensor) else None)
+                    return back
+
+                first = next(o for o in outs_t if isinstance(o, STensor))
+                hub = STensor(LC(()), (), first.meta, node=Node(parents, hub_vjp, cls.__name__))
+                hub.requires_grad = True
+                wrapped: List[Any] = []
+                for k, o in enumerate(outs_t):
+                    if not isinstance(o, STensor) or not o.meta.is_floating_point():
+                        wrapped.append(o)
+                        continue
+                    nk = Node([hub], lambda g, _k=k: [LC(tuple((c, Term(f"inj[{_k}]", (LC(((ONE, t),)),))) for c, t in g))], f"{cls.__name__}.out{k}")
+                    w = STensor(o.lc, o.shape, o.meta, node=nk, const=o.const)
+                    w.requires_grad = True
+                    wrapped.append(w)
+                return type(out)(wrapped)
+            if not isinstance(out, STensor):
+                return out
             node = None
             if Mode.grad and any(p.requires_grad for p in parents):
                 def vjp(g: LC, _cls: Any = cls, _fctx: FakeCtx = fctx, _out: STensor = out) -> List[Optional[LC]]:
@@ -1323,11 +1509,13 @@ class Session:
         orig_bs = torch.broadcast_shapes
 
         def bshapes(*shapes: Any) -> Any:
-            if any(isinstance(s, SSize) for s in shapes):
-                return broadcast_shapes(*shapes)
+            if any(isinstance(s, SSize) or (isinstance(s, (tuple, list)) and any(isinstance(d, SInt) for d in s)) for s in shapes):
+                return SSize(broadcast_shapes(*[tuple(s) if not isinstance(s, int) else (s,) for s in shapes]))
             return orig_bs(*shapes)
 
         patch(torch, "broadcast_shapes", bshapes)
+        orig_is_tensor = torch.is_tensor
+        patch(torch, "is_tensor", lambda obj: isinstance(obj, STensor) or orig_is_tensor(obj))
         import unit_scaling._modules as um
         patch(um, "einops", EINOPS)
         patch(um, "F", TF)
@@ -1338,7 +1526,7 @@ class Session:
         patch(uc, "pow", sym_pow)
         patch(uc, "prod", MathShim.prod)
 
-        def sym_float(x: Any) -> Any:
+        def _sym_float(x: Any = 0.0) -> Any:
             if isinstance(x, STensor):
                 if x.const is None:
                     return dispatch("item", None, (x,), {})
@@ -1346,6 +1534,78 @@ class Session:
             if isinstance(x, (SReal, SInt)):
                 return _sreal(x)
             return float(x)
+
+        def _sym_int(x: Any = 0, *a: Any) -> Any:
+            if isinstance(x, STensor):  # a number read out of tensor data: a fresh *data* symbol (or the constant)
+                if x.const is None:
+                    return dispatch("item", None, (x,), {})
+                x = x.const
+            if isinstance(x, SInt):
+                return x
+            if isinstance(x, SReal):
+                if x.const is not None:
+                    return int(x.const)
+                raise HarnessError("int() of a symbolic real")
+            return int(x, *a)
+
+        class _ShimMeta(type):
+            """the builtin's name inside library modules: converts like the builtin, symbolic values included, and still works
+            as the second argument of isinstance()"""
+            def __instancecheck__(cls, obj: Any) -> bool:
+                return isinstance(obj, cls._accept)  # type: ignore[attr-defined]
+
+            def __subclasscheck__(cls, sub: Any) -> bool:
+                return issubclass(sub, cls._accept)  # type: ignore[attr-defined]
+
+            def __call__(cls, *a: Any, **k: Any) -> Any:
+                return cls._convert(*a, **k)  # type: ignore[attr-defined]
+
+            def __eq__(cls, other: Any) -> bool:
+                return other is cls or other is cls._builtin  # type: ignore[attr-defined]
+
+            def __hash__(cls) -> int:
+                return hash(cls._builtin)  # type: ignore[attr-defined]
+
+        class sym_float(metaclass=_ShimMeta):
+            _accept, _convert, _builtin = (float, SReal), staticmethod(_sym_float), float
+
+        class sym_int(metaclass=_ShimMeta):
+            _accept, _convert, _builtin = (int, SInt), staticmethod(_sym_int), int
+
+        import unit_scaling.scale as usc
+        for mod in (uf, ucf, um, uo, usc):
+            if "int" not in vars(mod):
+                patch(mod, "int", sym_int)
+            if "float" not in vars(mod) and mod is not uo:
+                patch(mod, "float", sym_float)
+
+        # the same stand-ins wherever a (refactored) library module binds `math` or one of its functions under any name
+        import math as _math
+        import sys as _sys
+        from .scalar import sym_exp, sym_isclose as _sic
+        subst = {_math.log: sym_log, _math.exp: sym_exp, _math.pow: sym_pow, _math.sqrt: MathShim.sqrt, _math.prod: MathShim.prod,
+                 _math.isclose: _sic}
+        done = {(id(o), a) for o, a, _, _ in self.saved}
+        from .scalar import NumpyShim
+        try:
+            import numpy as _numpy
+        except Exception:  # numpy is a torch dependency; be safe anyway
+            _numpy = None
+        _NP_NAMES = ("isclose", "sqrt", "power", "prod", "log", "exp", "abs", "absolute", "square")
+        for mname, mod in list(_sys.modules.items()):
+            if not mname.startswith("unit_scaling") or ".tests" in mname or mod is None:
+                continue
+            for gname, val in list(vars(mod).items()):
+                if (id(mod), gname) in done:
+                    continue
+                if val is _math:
+                    patch(mod, gname, MathShim())
+                elif callable(val) and getattr(val, "__module__", None) == "math" and val in subst:
+                    patch(mod, gname, subst[val])
+                elif val is _numpy:
+                    patch(mod, gname, NumpyShim())
+                elif _numpy is not None and callable(val) and any(val is getattr(_numpy, n, None) for n in _NP_NAMES):
+                    patch(mod, gname, getattr(NumpyShim, next(n for n in _NP_NAMES if val is getattr(_numpy, n, None))))
 
         patch(uo, "float", sym_float)
         patch(uo, "Tensor", TensorLike)
@@ -1356,11 +1616,42 @@ class Session:
         patch(uts, "isclose", sym_isclose)
         patch(uut, "Tensor", TensorLike)
         patch(uut, "float", sym_float)
+        # library-global mutable state (module-level / class-level dict, list, set; lru_cache'd functions): every path of the
+        # exploration must start from the same library state, and nothing symbolic may stay behind in a cache after the run
+        self.state: List[Tuple[Any, Any]] = []
+        self.caches: List[Any] = []
+        for mname, mod in list(_sys.modules.items()):
+            if not mname.startswith("unit_scaling") or ".tests" in mname or mod is None:
+                continue
+            holders = [mod] + [v for v in vars(mod).values() if isinstance(v, type) and getattr(v, "__module__", None) == mname]
+            for holder in holders:
+                for gname, val in list(vars(holder).items()):
+                    if gname.startswith("__"):
+                        continue
+                    if type(val) in (dict, list, set) or type(val).__name__ in ("OrderedDict", "defaultdict"):
+                        self.state.append((val, _copy.copy(val)))
+                    elif callable(getattr(val, "cache_clear", None)) and callable(getattr(val, "cache_info", None)):
+                        self.caches.append(val)
         LIFTED.clear()
+        Mode.events = []
         Mode.active += 1
         return self
 
     def __exit__(self, *exc: Any) -> None:
+        for live, snap in self.state:
+            try:
+                if isinstance(live, list):
+                    live[:] = snap
+                else:
+                    live.clear()
+                    live.update(snap)
+            except Exception:
+                pass
+        for fn in self.caches:
+            try:
+                fn.cache_clear()
+            except Exception:
+                pass
         for obj, attr, old, had in reversed(self.saved):
             if had:
                 setattr(obj, attr, old)
